@@ -767,7 +767,9 @@ theorem nd_tickIntSend {σ : State} (h : ND σ) {k : Nat} (heq : σ.vol.pc = som
   · rename_i x hx
     dsimp only
     split
-    · apply nd_sub_plain h hne quiet_none (by rfl)
+    · apply nd_sub_plain h hne
+      · exact quiet_none
+      · rfl
       · intro s; exact stopIn_snoc_nonstop (by simp) s
       · intro s; exact stopCount_snoc_nonstop (by simp) s
       · intro s hs
@@ -779,8 +781,13 @@ theorem nd_tickIntSend {σ : State} (h : ND σ) {k : Nat} (heq : σ.vol.pc = som
       · exact fun s hs => hs
       · intro p hp; exact Or.inl ⟨p, hp, rfl, rfl⟩
       · exact Or.inl rfl
-    · apply nd_sub_plain h hne quiet_none (by rfl) (fun _ => Iff.rfl) (fun _ => rfl) (fun s hs => hs)
-        (fun s hs => hs)
+    · apply nd_sub_plain h hne
+      · exact quiet_none
+      · rfl
+      · exact fun _ => Iff.rfl
+      · exact fun _ => rfl
+      · exact fun s hs => hs
+      · exact fun s hs => hs
       · intro p hp
         simp only [setPc, enqueue, List.mem_cons] at hp
         rcases hp with e | e
@@ -805,7 +812,9 @@ theorem nd_tickProcSend {σ : State} (h : ND σ) {id : Nat} {rest : List Nat}
       · rename_i hk
         have hk' : p.req.kind = .stop := by simpa using hk
         have hPS : PS σ p.req.sid := ⟨p, hm, hk', rfl⟩
-        apply nd_ack h p.req hk' (by rfl) (by rfl)
+        apply nd_ack h p.req hk'
+        · rfl
+        · rfl
         · intro ht hl; exact (h.per _ ht).d hl hPS
         · exact fun s hs => hs
         · exact fun s hs => hs
@@ -831,7 +840,9 @@ theorem nd_tickProcSend {σ : State} (h : ND σ) {id : Nat} {rest : List Nat}
         · intro l hl; simp [setPc, pendingDrain] at hl
       · rename_i hk
         have hk' : p.req.kind ≠ .stop := by simpa using hk
-        apply nd_sub_plain h hne (quiet_nextProc _ _) (by rfl)
+        apply nd_sub_plain h hne
+        · exact quiet_nextProc _ _
+        · rfl
         · intro s; exact stopIn_snoc_nonstop hk' s
         · intro s; exact stopCount_snoc_nonstop hk' s
         · exact fun s hs => hs
@@ -840,12 +851,22 @@ theorem nd_tickProcSend {σ : State} (h : ND σ) {id : Nat} {rest : List Nat}
         · exact Or.inl rfl
     · -- not acknowledged: retry count, or abandoned
       split
-      · apply nd_sub_plain h hne (quiet_nextProc _ _) (by rfl) (fun _ => Iff.rfl) (fun _ => rfl)
-          (fun s hs => hs) (fun s hs => hs)
+      · apply nd_sub_plain h hne
+        · exact quiet_nextProc _ _
+        · rfl
+        · exact fun _ => Iff.rfl
+        · exact fun _ => rfl
+        · exact fun s hs => hs
+        · exact fun s hs => hs
         · intro q hq; exact Or.inl ⟨q, mem_eraseP hq, rfl, rfl⟩
         · exact Or.inl rfl
-      · apply nd_sub_plain h hne (quiet_nextProc _ _) (by rfl) (fun _ => Iff.rfl) (fun _ => rfl)
-          (fun s hs => hs) (fun s hs => hs)
+      · apply nd_sub_plain h hne
+        · exact quiet_nextProc _ _
+        · rfl
+        · exact fun _ => Iff.rfl
+        · exact fun _ => rfl
+        · exact fun s hs => hs
+        · exact fun s hs => hs
         · intro q hq
           simp only [setPc, noteOrd, List.mem_map] at hq
           obtain ⟨q0, hq0, e⟩ := hq
@@ -914,5 +935,1046 @@ theorem nd_tickProcRemove {σ : State} (h : ND σ) {k : Nat} {rest : List Nat}
       have : pendingDrain (nextProc σ.vol.pending rest) = none := hq.2.2
       simp only [setPc, removeFile] at hl
       rw [this] at hl; simp at hl
+
+
+/-! ### the shutdown drain -/
+
+theorem pendingDrain_nextDrain (rest : List Nat) : pendingDrain (some (nextDrain rest)) = some rest := by
+  cases rest <;> rfl
+theorem recInfo_nextDrain (rest : List Nat) : recInfo (some (nextDrain rest)) = none := by
+  cases rest <;> rfl
+theorem cleans_nextDrain (rest : List Nat) (s : Nat) : ¬ cleans (some (nextDrain rest)) s := by
+  cases rest <;> simp [nextDrain, cleans]
+theorem covers_nextDrain (rest : List Nat) (s : Nat) : ¬ covers (some (nextDrain rest)) s := by
+  cases rest <;> simp [nextDrain, covers]
+
+theorem exA_drain_transfer {pc pc' : Option Frame} {l l' : List Nat} (h1 : pendingDrain pc = some l)
+    (h2 : pendingDrain pc' = some l') (hsub : ∀ x ∈ l', x ∈ l) (hns : ∀ s b, pc ≠ some (.stopDelete s b))
+    (s : Nat) (b : Bool) (hc : exA pc s b) : exA pc' s b := by
+  rcases hc with e | ⟨l0, hl0, hn⟩
+  · exact absurd e (hns s b)
+  · rw [h1] at hl0
+    simp only [Option.some.injEq] at hl0
+    subst hl0
+    exact Or.inr ⟨l', h2, fun hx => hn (hsub s hx)⟩
+
+theorem nd_tickDrainSend {σ : State} (h : ND σ) {k : Nat} {rest : List Nat}
+    (heq : σ.vol.pc = some (.drainSend k rest)) (a : Bool) : ND (tickDrainSend σ k rest a) := by
+  have hpd : pendingDrain σ.vol.pc = some (k :: rest) := by rw [heq]; rfl
+  have hnd : (k :: rest).Nodup := h.dr _ hpd
+  have hkr : k ∉ rest := (List.nodup_cons.mp hnd).1
+  have hrn : rest.Nodup := (List.nodup_cons.mp hnd).2
+  have hns : ∀ s b, σ.vol.pc ≠ some (.stopDelete s b) := by intro s b; rw [heq]; simp
+  have noCl : ∀ s, ¬ cleans σ.vol.pc s := by intro s; rw [heq]; simp [cleans]
+  have noCv : ∀ s, ¬ covers σ.vol.pc s := by intro s; rw [heq]; simp [covers]
+  have noEx : ∀ b, ¬ exA σ.vol.pc k b := by
+    intro b hc
+    rcases hc with e | ⟨l, hl, hn⟩
+    · exact hns k b e
+    · rw [hpd] at hl; simp only [Option.some.injEq] at hl; subst hl; exact hn List.mem_cons_self
+  unfold tickDrainSend
+  split
+  · apply nd_sub (σ' := setPc σ (some (nextDrain rest))) h rfl (fun _ => Iff.rfl) (fun _ => rfl)
+      (fun s hs => hs) (fun s hs => hs) (fun p hp => Or.inl ⟨p, hp, rfl, rfl⟩) (Or.inl rfl)
+    · intro s _ _ hc; exact absurd hc (noCl s)
+    · intro s b hc
+      exact Or.inl (exA_drain_transfer hpd (pendingDrain_nextDrain rest) (fun x hx => List.mem_cons_of_mem _ hx) hns s b hc)
+    · intro s hc; exact absurd hc (noCv s)
+    · intro hr; cases rest <;> simp [setPc, nextDrain, isRec] at hr
+    · intro recd cur hr; simp only [setPc] at hr; rw [recInfo_nextDrain] at hr; simp at hr
+    · intro l hl; simp only [setPc] at hl; rw [pendingDrain_nextDrain] at hl
+      simp only [Option.some.injEq] at hl; subst hl; exact hrn
+  · rename_i x hx
+    have hAS : AS σ k := by unfold AS; rw [hx]; rfl
+    have noStop : k ∉ σ.tainted → ¬ stopIn σ.log k := fun ht hl => noEx true ((h.per k ht).f hl hAS)
+    have noPS : k ∉ σ.tainted → ¬ PS σ k := fun ht hp => noEx false ((h.per k ht).h hp hAS)
+    have noQS : k ∉ σ.tainted → ¬ QS σ k := fun ht => (h.per k ht).j hAS
+    dsimp only
+    split
+    · apply nd_ack h (stopRec k x 11 (counters (noteOrd σ k) k)) rfl
+      · rfl
+      · rfl
+      · exact noStop
+      · exact fun s hs => hs
+      · exact fun s hs => hs
+      · exact fun p hp => ⟨p, hp, rfl, rfl⟩
+      · rfl
+      · exact noPS
+      · intro _ _; rfl
+      · intro _ _; exact Or.inr ⟨rest, rfl, hkr⟩
+      · intro ht hq; exact absurd hq (noQS ht)
+      · intro s _ _ hc; exact absurd hc (noCl s)
+      · intro s b hc
+        exact Or.inl (exA_drain_transfer hpd (pc' := some (.drainRemove k rest)) rfl
+          (fun x hx => List.mem_cons_of_mem _ hx) hns s b hc)
+      · intro s hc; exact absurd hc (noCv s)
+      · intro hr; simp [setPc, isRec] at hr
+      · intro recd cur hr; simp [setPc, recInfo] at hr
+      · intro l hl
+        simp only [setPc, pendingDrain, Option.some.injEq] at hl
+        subst hl; exact hrn
+    · have := nd_enqueue_stop h (stopRec k x 11 (counters (noteOrd σ k) k)) false rfl (some (nextDrain rest))
+        (fun τ => noteOrd τ k) (fun τ => ⟨rfl, rfl, rfl, rfl⟩) noPS noStop
+        (fun _ _ => Or.inr ⟨rest, pendingDrain_nextDrain rest, hkr⟩)
+        (fun ht hq => absurd hq (noQS ht))
+        (fun s _ _ hc => absurd hc (noCl s))
+        (fun s b hc => Or.inl (exA_drain_transfer hpd (pendingDrain_nextDrain rest)
+          (fun x hx => List.mem_cons_of_mem _ hx) hns s b hc))
+        (fun s hc => absurd hc (noCv s))
+        (fun hr => by cases rest <;> simp [nextDrain, isRec] at hr)
+        (fun recd cur hr => by rw [recInfo_nextDrain] at hr; simp at hr)
+        (fun l hl => by
+          rw [pendingDrain_nextDrain] at hl
+          simp only [Option.some.injEq] at hl; subst hl; exact hrn)
+      exact this
+
+theorem nd_tickDrainRemove {σ : State} (h : ND σ) {k : Nat} {rest : List Nat}
+    (heq : σ.vol.pc = some (.drainRemove k rest)) : ND (tickDrainRemove σ k rest) := by
+  have hpd : pendingDrain σ.vol.pc = some rest := by rw [heq]; rfl
+  have hrn : rest.Nodup := h.dr _ hpd
+  have hns : ∀ s b, σ.vol.pc ≠ some (.stopDelete s b) := by intro s b; rw [heq]; simp
+  unfold tickDrainRemove
+  apply nd_sub (σ' := setPc (removeFile σ k) (some (nextDrain rest))) h rfl (fun _ => Iff.rfl) (fun _ => rfl)
+    (fun s hs => hs)
+  · intro s hs
+    unfold FS at hs ⊢
+    simp only [setPc, removeFile, lookup_erase] at hs
+    split at hs
+    · simp at hs
+    · exact hs
+  · exact fun p hp => Or.inl ⟨p, hp, rfl, rfl⟩
+  · exact Or.inl rfl
+  · intro s _ _ hc
+    rw [heq] at hc
+    simp only [cleans] at hc
+    subst hc
+    right; unfold FS; simp [setPc, removeFile]
+  · intro s b hc
+    exact Or.inl (exA_drain_transfer hpd (pendingDrain_nextDrain rest) (fun x hx => hx) hns s b hc)
+  · intro s hc; rw [heq] at hc; simp [covers] at hc
+  · intro hr; cases rest <;> simp [setPc, nextDrain, isRec] at hr
+  · intro recd cur hr; simp only [setPc] at hr; rw [recInfo_nextDrain] at hr; simp at hr
+  · intro l hl; simp only [setPc] at hl; rw [pendingDrain_nextDrain] at hl
+    simp only [Option.some.injEq] at hl; subst hl; exact hrn
+
+theorem nd_tickPersistPending {σ : State} (h : ND σ) (heq : σ.vol.pc = some .persistPending) :
+    ND (tickPersistPending σ) := by
+  unfold tickPersistPending
+  apply nd_gen h
+  · rfl
+  · exact fun _ => Iff.rfl
+  · exact fun _ => rfl
+  · intro s _ hs; unfold AS at hs; simp at hs
+  · intro s _ hs
+    left
+    unfold FS at hs ⊢
+    dsimp only at hs
+    split at hs <;> exact hs
+  · intro p hp; simp at hp
+  · intro s _ _ p hp; simp at hp
+  · intro ps' hps'
+    dsimp only at hps'
+    split at hps'
+    · exact Or.inl hps'
+    · right
+      simp only [Option.some.injEq] at hps'
+      subst hps'
+      exact ⟨fun p hp => ⟨p, hp, rfl, rfl⟩, rfl, rfl⟩
+  · intro s _ _ hc; rw [heq] at hc; simp [cleans] at hc
+  · intro s b _; right; unfold AS; simp
+  · intro s hc; rw [heq] at hc; simp [covers] at hc
+  · intro hr; simp [isRec] at hr
+  · intro recd cur hr; simp [recInfo] at hr
+  · intro l hl; simp [pendingDrain] at hl
+
+
+/-! ### the recovery procedure -/
+
+theorem recInfo_nextRec (recd order rest : List Nat) : recInfo (some (nextRec recd order rest)) = some (recd, none) := by
+  cases rest <;> rfl
+theorem covers_nextRec (recd order rest : List Nat) (s : Nat) :
+    covers (some (nextRec recd order rest)) s ↔ s ∈ recd := by
+  cases rest <;> rfl
+theorem pendingDrain_nextRec (recd order rest : List Nat) : pendingDrain (some (nextRec recd order rest)) = none := by
+  cases rest <;> rfl
+theorem cleans_nextRec (recd order rest : List Nat) (s : Nat) : ¬ cleans (some (nextRec recd order rest)) s := by
+  cases rest <;> simp [nextRec, cleans]
+
+theorem nd_tickRecSend {σ : State} (h : ND σ) {k : Nat} {rest recd order : List Nat}
+    (heq : σ.vol.pc = some (.recSend k rest recd order)) (a : Bool) : ND (tickRecSend σ k rest recd order a) := by
+  have hrec : isRec σ.vol.pc := by rw [heq]; trivial
+  have hsess : σ.vol.sessions = [] := h.r1 hrec
+  have noAS : ∀ s, ¬ AS σ s := by intro s; unfold AS; rw [hsess]; simp
+  obtain ⟨r2a, r2b⟩ := h.r2 recd none (by rw [heq]; rfl)
+  have noCl : ∀ s, ¬ cleans σ.vol.pc s := by intro s; rw [heq]; simp [cleans]
+  have noEx : ∀ s b, ¬ exA σ.vol.pc s b := by
+    intro s b hc; rw [heq] at hc
+    rcases hc with e | ⟨l, hl, _⟩
+    · simp at e
+    · simp [pendingDrain] at hl
+  have hcv : ∀ s, covers σ.vol.pc s ↔ s ∈ recd := by intro s; rw [heq]; rfl
+  unfold tickRecSend
+  split
+  · apply nd_sub (σ' := setPc σ (some (nextRec recd order rest))) h rfl (fun _ => Iff.rfl) (fun _ => rfl)
+      (fun s hs => hs) (fun s hs => hs) (fun p hp => Or.inl ⟨p, hp, rfl, rfl⟩) (Or.inl rfl)
+    · intro s _ _ hc; exact absurd hc (noCl s)
+    · intro s b hc; exact absurd hc (noEx s b)
+    · intro s hc; left; exact (covers_nextRec recd order rest s).mpr ((hcv s).mp hc)
+    · intro _; exact hsess
+    · intro recd' cur hr
+      simp only [setPc] at hr
+      rw [recInfo_nextRec] at hr
+      simp only [Option.some.injEq, Prod.mk.injEq] at hr
+      obtain ⟨e1, e2⟩ := hr
+      subst e1; subst e2
+      exact ⟨r2a, r2b⟩
+    · intro l hl; simp only [setPc] at hl; rw [pendingDrain_nextRec] at hl; simp at hl
+  · rename_i x hx
+    have hFS : FS σ k := by unfold FS; rw [hx]; rfl
+    have knr : k ∉ recd := fun hm => r2a k hm hFS
+    have noStop : k ∉ σ.tainted → ¬ stopIn σ.log k := fun ht hl => noCl k ((h.per k ht).e hl hFS)
+    have noPS : ¬ PS σ k := by
+      rintro ⟨p, hp, hst⟩
+      rcases r2b p hp k hst with h1 | h1
+      · exact knr h1
+      · simp at h1
+    cases a with
+    | true =>
+      apply nd_ack (σ' := setPc (send σ (stopRec k x (if x.stopCause = 0 then 11 else x.stopCause)
+        (x.lastIn, x.lastOut)) true true) (some (.recRemove k rest recd order))) h
+        (stopRec k x (if x.stopCause = 0 then 11 else x.stopCause) (x.lastIn, x.lastOut)) rfl rfl rfl noStop
+        (fun s hs => hs) (fun s hs => hs) (fun p hp => ⟨p, hp, rfl, rfl⟩) rfl
+      · exact fun _ => noPS
+      · intro _ _; rfl
+      · intro _ ha; exact absurd ha (noAS k)
+      · intro _ _; exact Or.inl rfl
+      · intro s _ _ hc; exact absurd hc (noCl s)
+      · intro s b hc; exact absurd hc (noEx s b)
+      · intro s hc; left; exact Or.inr ((hcv s).mp hc)
+      · intro _; exact hsess
+      · intro recd' cur hr
+        simp only [setPc, recInfo, Option.some.injEq, Prod.mk.injEq] at hr
+        obtain ⟨e1, e2⟩ := hr
+        subst e1; subst e2
+        refine ⟨r2a, ?_⟩
+        intro p hp s hst
+        rcases r2b p hp s hst with h1 | h1
+        · exact Or.inl h1
+        · simp at h1
+      · intro l hl; simp [setPc, pendingDrain] at hl
+    | false =>
+      have := nd_enqueue_stop h (stopRec k x (if x.stopCause = 0 then 11 else x.stopCause) (x.lastIn, x.lastOut))
+        true rfl (some (.recRemove k rest recd order)) id (fun τ => ⟨rfl, rfl, rfl, rfl⟩)
+        (fun _ => noPS) noStop (fun _ ha => absurd ha (noAS k)) (fun _ _ => Or.inl rfl)
+        (fun s _ _ hc => absurd hc (noCl s)) (fun s b hc => absurd hc (noEx s b))
+        (fun s hc => Or.inl (Or.inr ((hcv s).mp hc)))
+        (fun _ => hsess)
+        (fun recd' cur hr => by
+          simp only [recInfo, Option.some.injEq, Prod.mk.injEq] at hr
+          obtain ⟨e1, e2⟩ := hr
+          subst e1; subst e2
+          refine ⟨r2a, Or.inl rfl, ?_⟩
+          intro p hp s hst
+          rcases r2b p hp s hst with h1 | h1
+          · exact Or.inl h1
+          · simp at h1)
+        (fun l hl => by simp [pendingDrain] at hl)
+      exact this
+
+theorem nd_tickRecRemove {σ : State} (h : ND σ) {k : Nat} {rest recd order : List Nat}
+    (heq : σ.vol.pc = some (.recRemove k rest recd order)) : ND (tickRecRemove σ k rest recd order) := by
+  have hrec : isRec σ.vol.pc := by rw [heq]; trivial
+  have hsess : σ.vol.sessions = [] := h.r1 hrec
+  obtain ⟨r2a, r2b⟩ := h.r2 recd (some k) (by rw [heq]; rfl)
+  unfold tickRecRemove
+  apply nd_sub (σ' := setPc (removeFile σ k) (some (nextRec (k :: recd) order rest))) h rfl
+    (fun _ => Iff.rfl) (fun _ => rfl) (fun s hs => hs)
+  · intro s hs
+    unfold FS at hs ⊢
+    simp only [setPc, removeFile, lookup_erase] at hs
+    split at hs
+    · simp at hs
+    · exact hs
+  · exact fun p hp => Or.inl ⟨p, hp, rfl, rfl⟩
+  · exact Or.inl rfl
+  · intro s _ _ hc
+    rw [heq] at hc
+    simp only [cleans] at hc
+    subst hc
+    right; unfold FS; simp [setPc, removeFile]
+  · intro s b hc
+    rw [heq] at hc
+    rcases hc with e | ⟨l, hl, _⟩
+    · simp at e
+    · simp [pendingDrain] at hl
+  · intro s hc
+    rw [heq] at hc
+    left
+    apply (covers_nextRec (k :: recd) order rest s).mpr
+    rcases hc with e | e
+    · rw [e]; exact List.mem_cons_self
+    · exact List.mem_cons_of_mem _ e
+  · intro _; exact hsess
+  · intro recd' cur hr
+    simp only [setPc] at hr
+    rw [recInfo_nextRec] at hr
+    simp only [Option.some.injEq, Prod.mk.injEq] at hr
+    obtain ⟨e1, e2⟩ := hr
+    subst e1; subst e2
+    constructor
+    · intro x hx hf
+      unfold FS at hf
+      simp only [setPc, removeFile, lookup_erase] at hf
+      split at hf
+      · simp at hf
+      · rename_i e
+        rcases List.mem_cons.mp hx with e' | e'
+        · exact e e'
+        · exact r2a x e' hf
+    · intro p hp s hst
+      left
+      rcases r2b p hp s hst with h1 | h1
+      · exact List.mem_cons_of_mem _ h1
+      · simp only [Option.some.injEq] at h1; rw [h1]; exact List.mem_cons_self
+  · intro l hl; simp only [setPc] at hl; rw [pendingDrain_nextRec] at hl; simp at hl
+
+theorem nd_tickRecPendRemove {σ : State} (h : ND σ) (heq : σ.vol.pc = some .recPendRemove) :
+    ND (tickRecPendRemove σ) := by
+  unfold tickRecPendRemove
+  apply nd_sub (σ' := setPc { σ with dur := { σ.dur with pfile := none } } none) h rfl
+    (fun _ => Iff.rfl) (fun _ => rfl) (fun s hs => hs) (fun s hs => hs)
+    (fun p hp => Or.inl ⟨p, hp, rfl, rfl⟩) (Or.inr rfl)
+  · intro s _ _ hc; rw [heq] at hc; simp [cleans] at hc
+  · intro s b hc
+    rw [heq] at hc
+    rcases hc with e | ⟨l, hl, _⟩
+    · simp at e
+    · simp [pendingDrain] at hl
+  · intro s _; right; unfold QS; simp [setPc]
+  · intro hr; simp [setPc, isRec] at hr
+  · intro recd cur hr; simp [setPc, recInfo] at hr
+  · intro l hl; simp [setPc, pendingDrain] at hl
+
+
+theorem nd_tickRecLoad {σ : State} (h : ND σ) {recd order : List Nat}
+    (heq : σ.vol.pc = some (.recLoad recd order)) : ND (tickRecLoad σ recd order) := by
+  have hrec : isRec σ.vol.pc := by rw [heq]; trivial
+  have hsess : σ.vol.sessions = [] := h.r1 hrec
+  obtain ⟨r2a, r2b⟩ := h.r2 recd none (by rw [heq]; rfl)
+  have noCl : ∀ s, ¬ cleans σ.vol.pc s := by intro s; rw [heq]; simp [cleans]
+  have noEx : ∀ s b, ¬ exA σ.vol.pc s b := by
+    intro s b hc; rw [heq] at hc
+    rcases hc with e | ⟨l, hl, _⟩
+    · simp at e
+    · simp [pendingDrain] at hl
+  unfold tickRecLoad
+  split
+  · rename_i hpf
+    apply nd_sub (σ' := setPc σ none) h rfl (fun _ => Iff.rfl) (fun _ => rfl)
+      (fun s hs => hs) (fun s hs => hs) (fun p hp => Or.inl ⟨p, hp, rfl, rfl⟩) (Or.inl rfl)
+    · intro s _ _ hc; exact absurd hc (noCl s)
+    · intro s b hc; exact absurd hc (noEx s b)
+    · intro s _; right; unfold QS; simp [setPc, hpf]
+    · intro hr; simp [setPc, isRec] at hr
+    · intro recd' cur hr; simp [setPc, recInfo] at hr
+    · intro l hl; simp [setPc, pendingDrain] at hl
+  · rename_i ps hps
+    have sp := loadPending_spec σ recd (recOfIds ps (normalize order (ps.map (·.id))))
+    -- the loaded copy of a record of pending.json
+    have loadedOf : ∀ p ∈ (loadPending σ recd (recOfIds ps (normalize order (ps.map (·.id))))).vol.pending,
+        p ∈ σ.vol.pending ∨ ∃ q ∈ ps, p = { q with viaRecovery := true } ∧
+          ¬ (q.req.kind = .stop ∧ q.req.sid ∈ recd) := by
+      intro p hp
+      rcases sp.pending p hp with h1 | ⟨q, hq, e, hn⟩
+      · exact Or.inl h1
+      · exact Or.inr ⟨q, mem_recOfIds hq, e, hn⟩
+    have noPSold : ∀ s, s ∉ recd → ¬ PS σ s := by
+      rintro s hs ⟨p, hp, hst⟩
+      rcases r2b p hp s hst with h1 | h1
+      · exact hs h1
+      · simp at h1
+    apply nd_gen (σ' := setPc (loadPending σ recd (recOfIds ps (normalize order (ps.map (·.id)))))
+      (some .recPendRemove)) h
+    · exact sp.tainted
+    · intro s; show stopIn (loadPending σ recd _).log s ↔ _; rw [sp.log]
+    · intro s; show stopCount (loadPending σ recd _).log s = _; rw [sp.log]
+    · intro s _ hs
+      left
+      unfold AS at hs ⊢
+      have : (setPc (loadPending σ recd (recOfIds ps (normalize order (ps.map (·.id))))) (some .recPendRemove)).vol.sessions
+          = σ.vol.sessions := sp.sessions
+      rw [this] at hs; exact hs
+    · intro s _ hs
+      left
+      unfold FS at hs ⊢
+      have : (setPc (loadPending σ recd (recOfIds ps (normalize order (ps.map (·.id))))) (some .recPendRemove)).dur
+          = σ.dur := sp.dur
+      rw [this] at hs; exact hs
+    · intro p hp
+      rcases loadedOf p hp with h1 | ⟨q, hq, e, hn⟩
+      · exact Or.inl ⟨p, h1, rfl, rfl⟩
+      · subst e
+        by_cases hk : q.req.kind = .stop
+        · right; right
+          intro ht
+          have hnr : q.req.sid ∉ recd := fun hm => hn ⟨hk, hm⟩
+          have hQS : QS σ q.req.sid := ⟨ps, hps, q, hq, hk, rfl⟩
+          refine ⟨noPSold _ hnr, ?_, ?_, ?_⟩
+          · intro hl
+            have := (h.per _ ht).g hl hQS
+            rw [heq] at this
+            exact hnr this
+          · intro ha
+            unfold AS at ha
+            have : (setPc (loadPending σ recd (recOfIds ps (normalize order (ps.map (·.id)))))
+                (some .recPendRemove)).vol.sessions = σ.vol.sessions := sp.sessions
+            rw [this, hsess] at ha
+            simp at ha
+          · intro _; trivial
+        · exact Or.inr (Or.inl hk)
+    · intro s ht hps' p hp q hq h1 h2
+      rcases loadedOf p hp with a1 | ⟨p0, hp0, e1, _⟩
+      · exact absurd ⟨p, a1, h1⟩ hps'
+      · rcases loadedOf q hq with b1 | ⟨q0, hq0, e2, _⟩
+        · exact absurd ⟨q, b1, h2⟩ hps'
+        · subst e1; subst e2
+          exact (h.per s ht).c ps hps p0 hp0 q0 hq0 h1 h2
+    · intro ps' hps'
+      left
+      have : (setPc (loadPending σ recd (recOfIds ps (normalize order (ps.map (·.id))))) (some .recPendRemove)).dur
+          = σ.dur := sp.dur
+      rw [this] at hps'; exact hps'
+    · intro s _ _ hc; exact absurd hc (noCl s)
+    · intro s b hc; exact absurd hc (noEx s b)
+    · intro s _; left; trivial
+    · intro _
+      show (loadPending σ recd _).vol.sessions = []
+      rw [sp.sessions]; exact hsess
+    · intro recd' cur hr; simp [setPc, recInfo] at hr
+    · intro l hl; simp [setPc, pendingDrain] at hl
+
+theorem nd_tick {σ : State} (h : ND σ) (a : Bool) : ND (tick σ a) := by
+  unfold tick
+  split
+  · exact h
+  · rename_i heq; exact nd_tickStartSend h heq a
+  · rename_i heq; exact nd_tickStartPersist h heq
+  · rename_i heq; exact nd_tickStopPersist h heq
+  · rename_i heq; exact nd_tickStopSend h heq a
+  · rename_i heq; exact nd_tickStopDelete h heq
+  · rename_i heq; exact nd_tickStopRemove h heq
+  · rename_i heq; exact nd_tickIntSend h heq a
+  · rename_i heq; exact nd_tickProcSend h heq a
+  · rename_i heq; exact nd_tickProcRemove h heq
+  · rename_i heq; exact nd_tickDrainSend h heq a
+  · rename_i heq; exact nd_tickDrainRemove h heq
+  · rename_i heq; exact nd_tickPersistPending h heq
+  · rename_i heq; exact nd_tickRecSend h heq a
+  · rename_i heq; exact nd_tickRecRemove h heq
+  · rename_i heq; exact nd_tickRecLoad h heq
+  · rename_i heq; exact nd_tickRecPendRemove h heq
+
+
+/-! ## calls, crash, restart -/
+
+/-- a process that is down has no call in progress -/
+def IdleDown (σ : State) : Prop := σ.up = false → σ.vol.pc = none
+
+theorem tick_up (σ : State) (a : Bool) : (tick σ a).up = σ.up ∨ (tick σ a).vol.pc = none := by
+  unfold tick
+  split
+  · exact Or.inl rfl
+  · left; unfold tickStartSend send; repeat' (first | rfl | split)
+  · left; unfold tickStartPersist persistSession; repeat' (first | rfl | split)
+  · left; unfold tickStopPersist persistSession; repeat' (first | rfl | split)
+  · left; unfold tickStopSend send; repeat' (first | rfl | split)
+  · exact Or.inl rfl
+  · left; unfold tickStopRemove; repeat' (first | rfl | split)
+  · left; unfold tickIntSend; repeat' (first | rfl | split)
+  · left
+    unfold tickProcSend
+    split
+    · rfl
+    · dsimp only
+      repeat' (first | rfl | split)
+  · left; unfold tickProcRemove; repeat' (first | rfl | split)
+  · left; unfold tickDrainSend; repeat' (first | rfl | split)
+  · exact Or.inl rfl
+  · exact Or.inr rfl
+  · left; unfold tickRecSend send; repeat' (first | rfl | split)
+  · exact Or.inl rfl
+  · left
+    unfold tickRecLoad
+    split
+    · rfl
+    · exact (loadPending_spec _ _ _).up
+  · exact Or.inl rfl
+
+theorem idleDown_step {σ : State} (h : IdleDown σ) (op : Op) : IdleDown (step σ op) := by
+  cases op with
+  | tick a =>
+    intro hup
+    rcases tick_up σ a with e | e
+    · have hpc := h (by rw [← e]; exact hup)
+      simp only [step]
+      rw [tick_idle a hpc]; exact hpc
+    · exact e
+  | crash => intro _; rfl
+  | ctr s i o => exact h
+  | restart order =>
+    simp only [step]
+    split
+    · exact h
+    · intro hup
+      unfold callRestart at hup
+      dsimp only at hup
+      split at hup <;> simp [setPc, begin] at hup
+  | start s ident =>
+    simp only [step]
+    split
+    · exact h
+    · rename_i hu
+      intro hup
+      split at hup
+      · simp_all
+      · unfold callStart at hup
+        split at hup <;> simp_all [setPc, begin]
+  | interim s =>
+    simp only [step]
+    split
+    · exact h
+    · rename_i hu
+      intro hup
+      split at hup
+      · simp_all
+      · unfold callInterim at hup
+        split at hup
+        · simp_all [begin]
+        · split at hup <;> simp_all [setPc, begin]
+  | stop s cause =>
+    simp only [step]
+    split
+    · exact h
+    · rename_i hu
+      intro hup
+      split at hup
+      · simp_all
+      · unfold callStop at hup
+        split at hup <;> simp_all [setPc, begin]
+  | deq =>
+    simp only [step]
+    split
+    · exact h
+    · rename_i hu
+      intro hup
+      split at hup
+      · simp_all
+      · unfold callDeq at hup
+        split at hup <;> simp_all [setPc, begin]
+  | retry order =>
+    simp only [step]
+    split
+    · exact h
+    · rename_i hu
+      intro hup
+      split at hup
+      · simp_all
+      · simp_all [callRetry, setPc, begin]
+  | shutdown order =>
+    simp only [step]
+    split
+    · exact h
+    · rename_i hu
+      intro hup
+      split at hup
+      · simp_all
+      · simp_all [callShutdown, setPc, begin]
+
+/-- a session id that was never registered is nowhere -/
+theorem nowhere_of_unregistered {σ : State} (hr : Reg σ) {s : Nat} (hs : s ∉ σ.registered.map (·.1)) :
+    ¬ stopIn σ.log s ∧ ¬ AS σ s ∧ ¬ FS σ s ∧ ¬ PS σ s ∧ ¬ QS σ s := by
+  have key : ∀ i, (s, i) ∉ σ.registered := fun i hm => hs (List.mem_map.mpr ⟨(s, i), hm, rfl⟩)
+  refine ⟨?_, ?_, ?_, ?_, ?_⟩
+  · rintro ⟨r, hr', _, e⟩
+    have := hr.log r hr'
+    rw [e] at this; exact key _ this
+  · intro ha
+    unfold AS at ha
+    cases hl : lookup σ.vol.sessions s with
+    | none => rw [hl] at ha; simp at ha
+    | some x => exact key _ (hr.sess s x hl)
+  · intro ha
+    unfold FS at ha
+    cases hl : lookup σ.dur.files s with
+    | none => rw [hl] at ha; simp at ha
+    | some x => exact key _ (hr.files s x hl)
+  · rintro ⟨p, hp, _, e⟩
+    have := hr.pend p hp
+    rw [e] at this; exact key _ this
+  · rintro ⟨ps, hps, p, hp, _, e⟩
+    have := hr.pfile ps hps p hp
+    rw [e] at this; exact key _ this
+
+theorem nds_of_nowhere {σ : State} {s : Nat}
+    (h : ¬ stopIn σ.log s ∧ ¬ AS σ s ∧ ¬ FS σ s ∧ ¬ PS σ s ∧ ¬ QS σ s) : NDs σ s := by
+  obtain ⟨h1, h2, h3, h4, h5⟩ := h
+  refine ⟨?_, ?_, ?_, ?_, ?_, ?_, ?_, ?_, ?_, ?_⟩
+  · rw [stopCount_zero_iff.mpr h1]; omega
+  · intro p hp _ _ hst _; exact absurd ⟨p, hp, hst⟩ h4
+  · intro ps hps p hp _ _ hst _; exact absurd ⟨ps, hps, p, hp, hst⟩ h5
+  · exact fun hl => absurd hl h1
+  · exact fun hl => absurd hl h1
+  · exact fun hl => absurd hl h1
+  · exact fun hl => absurd hl h1
+  · exact fun hp => absurd hp h4
+  · exact fun hp => absurd hp h4
+  · exact fun ha => absurd ha h2
+
+theorem nd_init (c : Cfg) : ND (init c) := by
+  refine ⟨?_, by simp [init, isRec], by simp [init, recInfo], by simp [init, pendingDrain]⟩
+  intro s _
+  apply nds_of_nowhere
+  refine ⟨?_, ?_, ?_, ?_, ?_⟩
+  · rintro ⟨r, hr, _⟩; simp [init] at hr
+  · simp [AS, init]
+  · simp [FS, init]
+  · rintro ⟨p, hp, _⟩; simp [init] at hp
+  · rintro ⟨ps, hps, _⟩; simp [init] at hps
+
+/-- steps that change only bookkeeping fields -/
+theorem nd_same {σ σ' : State} (h : ND σ) (ht : σ'.tainted = σ.tainted) (hl : σ'.log = σ.log)
+    (hv : σ'.vol = σ.vol) (hd : σ'.dur = σ.dur) : ND σ' := by
+  apply nd_sub h ht (fun s => by rw [hl]) (fun s => by rw [hl])
+    (fun s hs => by unfold AS at hs ⊢; rw [hv] at hs; exact hs)
+    (fun s hs => by unfold FS at hs ⊢; rw [hd] at hs; exact hs)
+    (fun p hp => by rw [hv] at hp; exact Or.inl ⟨p, hp, rfl, rfl⟩)
+    (Or.inl (by rw [hd]))
+  · intro s _ _ hc; rw [hv]; exact Or.inl hc
+  · intro s b hc; rw [hv]; exact Or.inl hc
+  · intro s hc; rw [hv]; exact Or.inl hc
+  · rw [hv]; exact h.r1
+  · intro recd cur hr
+    rw [hv] at hr
+    obtain ⟨a1, a2⟩ := h.r2 recd cur hr
+    refine ⟨fun x hx hf => a1 x hx (by unfold FS at hf ⊢; rw [hd] at hf; exact hf), ?_⟩
+    rw [hv]; exact a2
+  · rw [hv]; exact h.dr
+
+
+theorem pc_none_of_not_isSome {σ : State} (h : ¬ σ.vol.pc.isSome = true) : σ.vol.pc = none := by
+  cases e : σ.vol.pc with
+  | none => rfl
+  | some f => rw [e] at h; simp at h
+
+theorem nd_step {σ : State} (h : ND σ) (hr : Reg σ) (hi : IdleDown σ) (op : Op)
+    (hfresh : ((step σ op).registered.map (·.1)).Nodup) : ND (step σ op) := by
+  cases op with
+  | tick a => exact nd_tick h a
+  | ctr s i o => exact nd_same h rfl rfl rfl rfl
+  | crash =>
+    refine ⟨?_, by simp [step, crash, isRec], by simp [step, crash, recInfo], by simp [step, crash, pendingDrain]⟩
+    intro s hs
+    have hs' : s ∉ σ.registered.map (·.1) := by
+      intro hm; apply hs
+      simp only [step, crash, List.mem_append]
+      exact Or.inl hm
+    obtain ⟨h1, _, h3, _, h5⟩ := nowhere_of_unregistered hr hs'
+    apply nds_of_nowhere
+    refine ⟨h1, ?_, h3, ?_, h5⟩
+    · simp [AS, step, crash]
+    · rintro ⟨p, hp, _⟩; simp [step, crash] at hp
+  | restart order =>
+    simp only [step]
+    split
+    · exact nd_same h rfl rfl rfl rfl
+    · rename_i hup
+      have hpc : σ.vol.pc = none := hi (by simpa using hup)
+      have hne : noExcuse σ.vol.pc := by rw [hpc]; exact noExcuse_none
+      unfold callRestart
+      dsimp only
+      split
+      · apply nd_sub h
+        · rfl
+        · exact fun _ => Iff.rfl
+        · exact fun _ => rfl
+        · intro s hs; simp [AS, setPc, begin] at hs
+        · exact fun s hs => hs
+        · intro p hp; simp [setPc, begin] at hp
+        · exact Or.inl rfl
+        · intro s _ _ hc; exact absurd hc (hne.1 s)
+        · intro s b hc; exact absurd hc (hne.2.1 s b)
+        · intro s hc; exact absurd hc (hne.2.2 s)
+        · intro _; rfl
+        · intro recd cur hr'
+          simp only [setPc] at hr'
+          rw [recInfo_nextRec] at hr'
+          simp only [Option.some.injEq, Prod.mk.injEq] at hr'
+          obtain ⟨e1, e2⟩ := hr'
+          subst e1; subst e2
+          refine ⟨by simp, ?_⟩
+          intro p hp; simp [setPc, begin] at hp
+        · intro l hl; simp only [setPc] at hl; rw [pendingDrain_nextRec] at hl; simp at hl
+      · apply nd_sub h
+        · rfl
+        · exact fun _ => Iff.rfl
+        · exact fun _ => rfl
+        · intro s hs; simp [AS, begin] at hs
+        · exact fun s hs => hs
+        · intro p hp; simp [begin] at hp
+        · exact Or.inl rfl
+        · intro s _ _ hc; exact absurd hc (hne.1 s)
+        · intro s b hc; exact absurd hc (hne.2.1 s b)
+        · intro s hc; exact absurd hc (hne.2.2 s)
+        · intro hr'; simp [begin, isRec] at hr'
+        · intro recd cur hr'; simp [begin, recInfo] at hr'
+        · intro l hl; simp [begin, pendingDrain] at hl
+  | start s ident =>
+    simp only [step] at hfresh ⊢
+    split
+    · exact nd_same h rfl rfl rfl rfl
+    · split
+      · exact nd_same h rfl rfl rfl rfl
+      · rename_i hup hbusy
+        have hpc : σ.vol.pc = none := pc_none_of_not_isSome hbusy
+        have hne : noExcuse σ.vol.pc := by rw [hpc]; exact noExcuse_none
+        rw [if_neg hup, if_neg hbusy] at hfresh
+        unfold callStart at hfresh ⊢
+        split
+        · exact nd_same h rfl rfl rfl rfl
+        · rename_i hnew
+          rw [if_neg hnew] at hfresh
+          have hs' : s ∉ σ.registered.map (·.1) := by
+            simp only [setPc, begin, List.map_cons, List.nodup_cons] at hfresh
+            exact hfresh.1
+          obtain ⟨n1, _, _, n4, n5⟩ := nowhere_of_unregistered hr hs'
+          apply nd_plain h hne
+          · exact quiet_startSend s
+          · rfl
+          · exact fun _ => Iff.rfl
+          · exact fun _ => rfl
+          · intro k _ hk
+            unfold AS at hk
+            simp only [setPc, begin, lookup_insert] at hk
+            split at hk
+            · rename_i e; subst e
+              exact Or.inr ⟨n1, n4, n5⟩
+            · exact Or.inl hk
+          · exact fun k _ hk => Or.inl hk
+          · intro p hp; exact Or.inl ⟨p, hp, rfl, rfl⟩
+          · intro k _ hps p hp q _ h1 _; exact absurd ⟨p, hp, h1⟩ hps
+          · rfl
+  | interim s =>
+    simp only [step]
+    split
+    · exact nd_same h rfl rfl rfl rfl
+    · split
+      · exact nd_same h rfl rfl rfl rfl
+      · rename_i hup hbusy
+        have hpc : σ.vol.pc = none := pc_none_of_not_isSome hbusy
+        have hne : noExcuse σ.vol.pc := by rw [hpc]; exact noExcuse_none
+        unfold callInterim
+        split
+        · exact nd_same h rfl rfl rfl rfl
+        · split
+          · exact nd_same h rfl rfl rfl rfl
+          · exact nd_sub_plain (σ' := setPc (begin σ .ok) (some (.intSend s))) h hne (quiet_intSend s) rfl
+              (fun _ => Iff.rfl) (fun _ => rfl) (fun k hk => hk) (fun k hk => hk)
+              (fun p hp => Or.inl ⟨p, hp, rfl, rfl⟩) (Or.inl rfl)
+  | stop s cause =>
+    simp only [step]
+    split
+    · exact nd_same h rfl rfl rfl rfl
+    · split
+      · exact nd_same h rfl rfl rfl rfl
+      · rename_i hup hbusy
+        have hpc : σ.vol.pc = none := pc_none_of_not_isSome hbusy
+        have hne : noExcuse σ.vol.pc := by rw [hpc]; exact noExcuse_none
+        unfold callStop
+        split
+        · exact nd_same h rfl rfl rfl rfl
+        · rename_i x hx
+          apply nd_sub_plain h hne
+          · exact quiet_stopPersist s
+          · rfl
+          · exact fun _ => Iff.rfl
+          · exact fun _ => rfl
+          · intro k hk
+            unfold AS at hk ⊢
+            simp only [setPc, begin, lookup_insert] at hk
+            split at hk
+            · rename_i e; subst e; rw [hx]; rfl
+            · exact hk
+          · exact fun k hk => hk
+          · intro p hp; exact Or.inl ⟨p, hp, rfl, rfl⟩
+          · exact Or.inl rfl
+  | deq =>
+    simp only [step]
+    split
+    · exact nd_same h rfl rfl rfl rfl
+    · split
+      · exact nd_same h rfl rfl rfl rfl
+      · rename_i hup hbusy
+        have hpc : σ.vol.pc = none := pc_none_of_not_isSome hbusy
+        have hne : noExcuse σ.vol.pc := by rw [hpc]; exact noExcuse_none
+        unfold callDeq
+        split
+        · exact nd_same h rfl rfl rfl rfl
+        · apply nd_sub_plain h hne
+          · exact quiet_nextProc _ _
+          · rfl
+          · exact fun _ => Iff.rfl
+          · exact fun _ => rfl
+          · exact fun k hk => hk
+          · exact fun k hk => hk
+          · intro p hp; exact Or.inl ⟨p, hp, rfl, rfl⟩
+          · exact Or.inl rfl
+  | retry order =>
+    simp only [step]
+    split
+    · exact nd_same h rfl rfl rfl rfl
+    · split
+      · exact nd_same h rfl rfl rfl rfl
+      · rename_i hup hbusy
+        have hpc : σ.vol.pc = none := pc_none_of_not_isSome hbusy
+        have hne : noExcuse σ.vol.pc := by rw [hpc]; exact noExcuse_none
+        unfold callRetry
+        apply nd_sub_plain h hne
+        · exact quiet_nextProc _ _
+        · rfl
+        · exact fun _ => Iff.rfl
+        · exact fun _ => rfl
+        · exact fun k hk => hk
+        · exact fun k hk => hk
+        · intro p hp; exact Or.inl ⟨p, hp, rfl, rfl⟩
+        · exact Or.inl rfl
+  | shutdown order =>
+    simp only [step]
+    split
+    · exact nd_same h rfl rfl rfl rfl
+    · split
+      · exact nd_same h rfl rfl rfl rfl
+      · rename_i hup hbusy
+        have hpc : σ.vol.pc = none := pc_none_of_not_isSome hbusy
+        have hne : noExcuse σ.vol.pc := by rw [hpc]; exact noExcuse_none
+        unfold callShutdown
+        apply nd_sub h
+        · rfl
+        · exact fun _ => Iff.rfl
+        · exact fun _ => rfl
+        · exact fun k hk => hk
+        · exact fun k hk => hk
+        · intro p hp; exact Or.inl ⟨p, hp, rfl, rfl⟩
+        · exact Or.inl rfl
+        · intro k _ _ hc; exact absurd hc (hne.1 k)
+        · intro k b hc; exact absurd hc (hne.2.1 k b)
+        · intro k hc; exact absurd hc (hne.2.2 k)
+        · intro hr'
+          simp only [setPc, begin] at hr'
+          cases hn : normalize order (keys σ.vol.sessions) <;> rw [hn] at hr' <;> simp [nextDrain, isRec] at hr'
+        · intro recd cur hr'
+          simp only [setPc, begin] at hr'
+          rw [recInfo_nextDrain] at hr'; simp at hr'
+        · intro l hl
+          simp only [setPc, begin] at hl
+          rw [pendingDrain_nextDrain] at hl
+          simp only [Option.some.injEq] at hl
+          subst hl
+          exact nodup_normalize _ _
+
+
+theorem registered_step_eq (σ : State) (op : Op) :
+    (step σ op).registered = σ.registered ∨ ∃ x, (step σ op).registered = x :: σ.registered := by
+  cases op with
+  | tick a => left; simp only [step]; exact tick_registered σ a
+  | crash => exact Or.inl rfl
+  | ctr s i o => exact Or.inl rfl
+  | restart order =>
+    left
+    simp only [step]
+    split
+    · rfl
+    · unfold callRestart; dsimp only; split <;> rfl
+  | start s ident =>
+    simp only [step]
+    split
+    · exact Or.inl rfl
+    · split
+      · exact Or.inl rfl
+      · unfold callStart
+        split
+        · exact Or.inl rfl
+        · exact Or.inr ⟨(s, ident), rfl⟩
+  | interim s =>
+    left
+    simp only [step]
+    split
+    · rfl
+    · split
+      · rfl
+      · unfold callInterim
+        split
+        · rfl
+        · split <;> rfl
+  | stop s cause =>
+    left
+    simp only [step]
+    split
+    · rfl
+    · split
+      · rfl
+      · unfold callStop
+        split <;> rfl
+  | deq =>
+    left
+    simp only [step]
+    split
+    · rfl
+    · split
+      · rfl
+      · unfold callDeq
+        split <;> rfl
+  | retry order =>
+    left
+    simp only [step]
+    split
+    · rfl
+    · split <;> rfl
+  | shutdown order =>
+    left
+    simp only [step]
+    split
+    · rfl
+    · split <;> rfl
+
+theorem fresh_of_step {σ : State} {op : Op} (h : ((step σ op).registered.map (·.1)).Nodup) :
+    (σ.registered.map (·.1)).Nodup := by
+  rcases registered_step_eq σ op with e | ⟨x, e⟩
+  · rw [e] at h; exact h
+  · rw [e] at h
+    simp only [List.map_cons, List.nodup_cons] at h
+    exact h.2
+
+theorem fresh_of_run {σ : State} {ops : List Op} (h : ((run σ ops).registered.map (·.1)).Nodup) :
+    (σ.registered.map (·.1)).Nodup := by
+  induction ops generalizing σ with
+  | nil => exact h
+  | cons op ops ih => exact fresh_of_step (ih h)
+
+theorem nd_run {σ : State} (h : ND σ) (hr : Reg σ) (hi : IdleDown σ) (ops : List Op)
+    (hfresh : ((run σ ops).registered.map (·.1)).Nodup) : ND (run σ ops) := by
+  induction ops generalizing σ with
+  | nil => exact h
+  | cons op ops ih =>
+    exact ih (nd_step h hr hi op (fresh_of_run hfresh)) (reg_step hr op) (idleDown_step hi op) hfresh
+
+/-- `tainted` grows only at a crash, by the sessions registered so far -/
+theorem tainted_step (σ : State) (op : Op) (s : Nat) (h : s ∈ (step σ op).tainted) :
+    s ∈ σ.tainted ∨ (op = .crash ∧ s ∈ σ.registered.map (·.1)) := by
+  by_cases hc : op = .crash
+  · subst hc
+    simp only [step, crash, List.mem_append] at h
+    rcases h with h | h
+    · exact Or.inr ⟨rfl, h⟩
+    · exact Or.inl h
+  · left
+    by_cases ht : ∃ a, op = .tick a
+    · obtain ⟨a, e⟩ := ht
+      subst e
+      simp only [step] at h
+      unfold tick at h
+      split at h
+      · exact h
+      · unfold tickStartSend send at h; revert h; repeat' (first | exact id | split)
+      · unfold tickStartPersist persistSession at h; revert h; repeat' (first | exact id | split)
+      · unfold tickStopPersist persistSession at h; revert h; repeat' (first | exact id | split)
+      · unfold tickStopSend send at h; revert h; repeat' (first | exact id | split)
+      · exact h
+      · unfold tickStopRemove at h; revert h; repeat' (first | exact id | split)
+      · unfold tickIntSend at h; revert h; repeat' (first | exact id | split)
+      · unfold tickProcSend at h
+        split at h
+        · exact h
+        · dsimp only at h
+          revert h; repeat' (first | exact id | split)
+      · unfold tickProcRemove at h; revert h; repeat' (first | exact id | split)
+      · unfold tickDrainSend at h; revert h; repeat' (first | exact id | split)
+      · exact h
+      · exact h
+      · unfold tickRecSend send at h; revert h; repeat' (first | exact id | split)
+      · exact h
+      · unfold tickRecLoad at h
+        split at h
+        · exact h
+        · simp only [setPc] at h
+          rw [(loadPending_spec _ _ _).tainted] at h; exact h
+      · exact h
+    · have e : (step σ op).tainted = σ.tainted := by
+        cases op with
+        | crash => exact absurd rfl hc
+        | tick a => exact absurd ⟨a, rfl⟩ ht
+        | ctr s i o => rfl
+        | restart order =>
+          simp only [step]
+          split
+          · rfl
+          · unfold callRestart; dsimp only; split <;> rfl
+        | start s ident =>
+          simp only [step]
+          split
+          · rfl
+          · split
+            · rfl
+            · unfold callStart
+              split <;> rfl
+        | interim s =>
+          simp only [step]
+          split
+          · rfl
+          · split
+            · rfl
+            · unfold callInterim
+              split
+              · rfl
+              · split <;> rfl
+        | stop s cause =>
+          simp only [step]
+          split
+          · rfl
+          · split
+            · rfl
+            · unfold callStop
+              split <;> rfl
+        | deq =>
+          simp only [step]
+          split
+          · rfl
+          · split
+            · rfl
+            · unfold callDeq
+              split <;> rfl
+        | retry order =>
+          simp only [step]
+          split
+          · rfl
+          · split <;> rfl
+        | shutdown order =>
+          simp only [step]
+          split
+          · rfl
+          · split <;> rfl
+      rw [e] at h; exact h
+
+
+theorem tainted_empty_run (σ : State) (ops : List Op) (hnc : Op.crash ∉ ops) (h0 : σ.tainted = []) :
+    (run σ ops).tainted = [] := by
+  induction ops generalizing σ with
+  | nil => exact h0
+  | cons op ops ih =>
+    apply ih _ (fun hm => hnc (List.mem_cons_of_mem _ hm))
+    apply List.eq_nil_iff_forall_not_mem.mpr
+    intro x hx
+    rcases tainted_step σ op x hx with h1 | ⟨h1, _⟩
+    · rw [h0] at h1; simp at h1
+    · exact hnc (by rw [h1]; exact List.mem_cons_self)
 
 end Bng.Acct
